@@ -87,7 +87,7 @@ def evaluate(case):
     mode0 = CONTOURS[cname]
     g = G.make(shape, n, xmin)
     where0 = f"shape={shape} n={n} xmin={xmin} degree={d} contour={cname}"
-    sig = f"degree={d}/contour={cname}"
+    sig = f"degree={d}"  # both contours share all code but the offset; the contour is named in the message
     dn = I.InterpolatorDispatcher(I.XGrid(list(g), log=True), d, mode_N=True)  # as the solver builds it
     dx = I.InterpolatorDispatcher(I.XGrid(list(g), log=True), d, mode_N=False)
     lg = np.log(dn.xgrid.raw)  # exactly the solver's list of inversion points
@@ -141,9 +141,10 @@ def evaluate(case):
             info["max_contour_cut_remainder"] = max(info["max_contour_cut_remainder"], abs(rem))
             # (a) sharp
             dev = abs(val - tr)
-            if dev > TOL:
+            sharp_ok = dev <= TOL
+            if not sharp_ok:
                 res.fail(
-                    f"inversion/vs-reference-integral/{kind}/{sig}",
+                    f"inversion/vs-reference-integral/{sig}",
                     f"{where}: quad of the solver's integrand = {val!r}, independent contour integral = {tr!r} "
                     f"(x-space value {pv!r}, contour-cut remainder {rem:.3e}, tol {TOL})",
                 )
@@ -158,10 +159,11 @@ def evaluate(case):
                 nonzero += 1
             ldev = abs(val - want)
             if ldev > abs(rem) + TOL:
-                res.fail(
-                    f"inversion/vs-x-space/{kind}/{sig}",
-                    f"{where}: inversion = {val!r}, x-space basis = {want!r}; the contour cut explains only {abs(rem):.3e} (+ tol {TOL})",
-                )
+                if sharp_ok:  # otherwise a consequence of the failure already reported
+                    res.fail(
+                        f"inversion/vs-x-space/{sig}",
+                        f"{where}: inversion = {val!r}, x-space basis = {want!r}; the contour cut explains only {abs(rem):.3e} (+ tol {TOL})",
+                    )
             else:
                 key = "max_literal_dev_node" if kind == "node" else "max_literal_dev_interior"
                 info[key] = max(info[key], ldev)
